@@ -640,6 +640,52 @@ pub fn main(tier: Tier) -> ! {
     run.bound_done(format!("{} shorthand/expansion pairs x {} inputs", SUGAR.len(), ins.len()));
     run.add(c);
 
+    // (6) arbitrary token strings: the parser and an independent parser accept the same strings with the same tree
+    const TOKS: &[&str] = &[
+        ".", "..", ".a", "1", "$x", "f", "\"a\"", "\"b\\(1)c\"", "@f", "(", ")", "[", "]", "{", "}", "|", ",", ":", ";", "?", "-", "+", "*", "=", "|=", "//", "==", "<", "and", "or", "as", "if", "then", "else", "elif", "end", "try", "catch", "def", "reduce",
+        "foreach", "label", "break", "g::h",
+    ];
+    let tl = if run.quick() { 4 } else { 5 };
+    let nt = TOKS.len();
+    let firsts: Vec<Vec<usize>> = (0..nt).flat_map(|a| (0..nt).map(move |b| vec![a, b])).collect();
+    let (cc, accepted) = firsts
+        .par_iter()
+        .map(|pre| {
+            let mut c = Counts::default();
+            let mut acc = 0u64;
+            // all strings that start with `pre` (lengths 2..=tl), plus the single tokens once
+            let mut stack: Vec<Vec<usize>> = vec![pre.clone()];
+            if pre[1] == 0 {
+                stack.push(vec![pre[0]]);
+            }
+            while let Some(s) = stack.pop() {
+                let text = s.iter().map(|i| TOKS[*i]).collect::<Vec<_>>().join(" ");
+                let got = rt::parse_with_jaq(&text);
+                let want = crate::rparse::parse(&text);
+                c.evaluations += 1;
+                if got.is_some() {
+                    acc += 1;
+                    c.nontrivial.insert(h64(&text));
+                }
+                if got != want {
+                    let full = Printer { style: Style::Full, sep: " " };
+                    run.violation(&format!("token string: {text}"), json!({"program": text, "jaq": got.as_ref().map(|g| full.print(g)), "reference_parser": want.as_ref().map(|g| full.print(g)), "what": match (&got, &want) { (Some(_), None) => "accepted although the grammar does not derive it", (None, Some(_)) => "rejected although the grammar derives it", _ => "parsed to a different tree" }}));
+                }
+                if s.len() < tl && s.len() >= 2 {
+                    for k in 0..nt {
+                        let mut s2 = s.clone();
+                        s2.push(k);
+                        stack.push(s2);
+                    }
+                }
+            }
+            (c, acc)
+        })
+        .reduce(|| (Counts::default(), 0), |a, b| (a.0.merge(b.0), a.1 + b.1));
+    run.family("token strings vs reference parser", json!({"tokens": nt, "max_length": tl, "strings": cc.evaluations, "accepted": accepted}));
+    run.bound_done(format!("all {} strings of <= {tl} tokens over {nt} tokens: same accept/reject and the same tree as an independent recursive-descent parser", cc.evaluations));
+    run.add(cc);
+
     // (5) rejection
     let mut c = Counts::default();
     for p in REJECT {
